@@ -327,7 +327,8 @@ def archive (cfg : Cfg) (rq : Req) (fs : FS) (key : Path) : List Step :=
 /-- deleteNullVersionIdObject -/
 def deleteNullVersion (cfg : Cfg) (fs : FS) (key : Path) : List Step :=
   let p := verDirOf cfg key ++ ["null"]
-  if fs.isFile p then [.unlink p] else []
+  -- os.Remove(versionPath), then meta.DeleteAttributes(versionDir, "null") (sidecar: the attribute directory)
+  if fs.isFile p then [.unlink p] ++ deleteAttrs cfg fs p else []
 
 /-! ## The requests -/
 
